@@ -394,7 +394,7 @@ def run(tier, seed):
     run_parallel(c, 'bounded.c06', 'check_override', ((s, k, b) for s in osyn for k in bk[s] for b in OVERRIDES), chunk=40)
     out.append(c.done())
 
-    n = 2400 if quick else 60000
+    n = 1800 if quick else 60000
     c = Clause('user-tables', 'B', 'random.Random(seed) user snippet tables: 1..6 entries, 45% overriding a built-in key, else a new key of 1..7 letters '
                '(15% with @ prefix, 15% camelCase); 60% property kind (name, 0..4 values from a pool) / 40% raw bodies',
                '%d tables, seed %d, syntax cycling through %r, scope random in none/@@global/@@section/@@property' % (n, seed, STYLESHEET_SYNTAXES),
